@@ -6,6 +6,11 @@ from pathlib import Path
 HERE = Path(__file__).resolve().parent
 PY = "/venv/bin/python /verif/check.py"
 
+HYGIENE = (" On every function these rules pass through (and its callees) five exact Python-semantics lints run as rule H"
+           " (sa/hygiene.py, DESIGN §8.2c): no state kept in a mutable default argument, no single-pass iterator consumed twice or inside"
+           " a loop (also across a call), no stored closure over a loop variable, no regex flag in a count/maxsplit position, no"
+           " comprehension clause reading a name bound by a later clause.")
+
 # property -> (technique, level text, level note, design ref)
 CHECKS: dict[str, tuple[str, str, str, str]] = {
     "C01": (
@@ -69,12 +74,12 @@ CHECKS: dict[str, tuple[str, str, str, str]] = {
         "DESIGN.md §3 C02",
     ),
     "C12": (
-        "interval lint on str.index results + branch-table tabulation against the specified table + filter-first dataflow",
+        "interval lint on str.index results + branch-table tabulation against the specified table (index-and-recurse family) or regex syntax-tree shape (substitution family) + filter-first dataflow",
         "Decides that no str.index/find result whose range includes 0 is tested by truthiness (package-wide), that"
         " which part filter_ignore_block keeps depends only on marker presence/order exactly as specified (joint"
         " decision-tree exploration; dependence on any other condition is a violation), and that every tag search"
-        " runs on the filtered text. The slice arithmetic itself (string indices for every interleaving) is not decided. Each file's window is decoded once and filtered as one text (window rule shared with C02).",
-        "Trusted: ast, sa/tab.py, sa/fold.py.",
+        " runs on the filtered text. The slice arithmetic itself (string indices for every interleaving) is not decided. Each file's window is decoded once and filtered as one text (window rule shared with C02). A filter written as ONE regular-expression substitution is decided by the shape of its pattern (START .*? (END | end of text), DOTALL, count 0, empty replacement); any other rewrite is not decided (exit 2).",
+        "Trusted: ast, sa/tab.py, sa/fold.py, re._parser.",
         "DESIGN.md §3 C12",
     ),
     "C04": (
@@ -260,7 +265,7 @@ def main() -> None:
                 "evidence_file": f"/verif/evidence/{pid}.json",
                 "replay_cmd_template": f"{PY} --explain {{path}}",
                 "engine": "sa",
-                "level_claimed": {"category": "other", "text": text, "design_ref": ref},
+                "level_claimed": {"category": "other", "text": text + HYGIENE, "design_ref": ref},
                 "level_note": note,
                 "technique": "static analysis: " + tech,
             })
